@@ -222,6 +222,27 @@ def tlc(module, cfg, env=None, workers=16, timeout=1800, simulate=None, depth=No
         shutil.rmtree(d, ignore_errors=True)
 
 
+def apalache_inductive(module, cinit, indinit, inv, timeout=600):
+    """Apalache: Init => Inv (length 0) and Inv /\\ Next => Inv' (length 1). Failure or timeout = Broken (never a verdict)."""
+    d = scratch("apa-")
+    try:
+        for f in os.listdir(SPEC):
+            if f.endswith(".tla"):
+                shutil.copy(os.path.join(SPEC, f), d)
+        for init, length in (("Init", 0), (indinit, 1)):
+            cmd = ["apalache-mc", "check", "--cinit=" + cinit, "--init=" + init, "--inv=" + inv, "--length=%d" % length,
+                   "--out-dir=" + os.path.join(d, "out"), module + ".tla"]
+            try:
+                p = subprocess.run(cmd, cwd=d, stdout=subprocess.PIPE, stderr=subprocess.STDOUT, text=True, timeout=timeout)
+            except subprocess.TimeoutExpired:
+                raise Broken("apalache timed out on %s" % module)
+            if "The outcome is: NoError" not in p.stdout:
+                raise Broken("apalache %s init=%s length=%d: %s" % (module, init, length, p.stdout[-1500:]))
+        log("apalache: %s is inductive for %s" % (inv, module))
+    finally:
+        shutil.rmtree(d, ignore_errors=True)
+
+
 def model_check(module, cfg, env=None, **kw):
     """Design-level run. A model-only counterexample is model drift (exit 2), not a violation."""
     r = tlc(module, cfg, env=env, **kw)
